@@ -156,7 +156,7 @@ var c13BadPatterns = []string{
 	"/{a:.+\\.(?:css|js)}", "/a[.html]", "/{all}", "/files/{f:.*}", "/{a:x|y}", "/{a:[^/]+}", "/{id:[0-9]{1,3}}", "/*", "/a*", "/a+b",
 }
 var c13BadMethods = []string{"DEL", "P", "OPT", "", " ", "get", " post ", "GET,POST", "FOO", "PATCH", "GETX", "TRACE"}
-var c13HostilePaths = []string{"", " ", "  ", "\t", "/", "//", "///", "/ /", "/\xff", "\xfe\xff", "/a\x00b", "/%zz", strings.Repeat("/a", 40), "/u/ab", "/u/12",
+var c13HostilePaths = []string{"", " ", "  ", "\t", "/", "//", "///", "/ /", " /", "/ ", "\t/\n", " // ", "/\xff", "\xfe\xff", "/a\x00b", "/%zz", strings.Repeat("/a", 40), "/u/ab", "/u/12",
 	"/p/x/v1", "/x/a", "/a.js", "/a.html", "/a", "/ab", "/x", "/x/y", "/x/y/z", " /u/1 ", "/u/1/", "/files/a/b", "/é/ü", "/a b", "/{a}", "/[x]"}
 var c13HostileMethods = []string{"GET", "get", "", " ", "HEAD", "OPTIONS", "G/ET", "GET/", "\xff", "PUT"}
 
@@ -178,7 +178,23 @@ func c13LimitCase(r *Rng) Sx {
 	if r.Chance(1, 3) { // everything on the route itself
 		a = 0
 	}
+	pre := r.Chance(1, 3)
+	if pre && r.Bool() { // group part and route part both below the limit, only their sum reaches it; nothing added later
+		total = []int{63, 64, 70, 100, 120, 62, 40}[r.Intn(7)]
+		lo, hi := total-62, 62
+		if lo < 1 {
+			lo = 1
+		}
+		if hi > total-1 {
+			hi = total - 1
+		}
+		a = r.Range(lo, hi)
+		b = total
+	}
 	route := L(A("route"), SL([]string{"GET"}), S("/x"), I(2), LS(ids(b-a)), LS(ids(total-b)), S(""))
+	if pre { // the route carries its middleware when it is added to the group
+		route.List = append(route.List, A("pre"))
+	}
 	var stmts []Sx
 	if a > 0 {
 		stmts = append(stmts, L(A("group"), S("/g"), LS(ids(a)), L(route)))
